@@ -1502,6 +1502,12 @@ func (v *VMValue) ComputedExecute(ctx *Context, detail *BufferSpan) *VMValue {
 		return nil
 	}
 
+	if cd.code == nil && strings.TrimSpace(cd.Expr) == "" {
+		// 函数体为空(例如从序列化数据还原的 func f() {})，解析空文本会报"输入为空"，
+		// 这里与定义时编译的结果保持一致: 一段空代码，返回 null
+		cd.code = []ByteCode{}
+		cd.codeIndex = 0
+	}
 	if cd.code == nil {
 		// Parse 会把 NumOpCount 清零，这里保留调用链上累计的算力，否则递归深度不受限制
 		opCount := vm.NumOpCount
@@ -1597,6 +1603,12 @@ func (v *VMValue) FuncInvokeRaw(ctx *Context, params []*VMValue, useUpCtxLocal b
 		return nil
 	}
 
+	if cd.code == nil && strings.TrimSpace(cd.Expr) == "" {
+		// 函数体为空(例如从序列化数据还原的 func f() {})，解析空文本会报"输入为空"，
+		// 这里与定义时编译的结果保持一致: 一段空代码，返回 null
+		cd.code = []ByteCode{}
+		cd.codeIndex = 0
+	}
 	if cd.code == nil {
 		// Parse 会把 NumOpCount 清零，这里保留调用链上累计的算力，否则递归深度不受限制
 		opCount := vm.NumOpCount
